@@ -524,8 +524,16 @@ func runC18(c *Ctx) {
 	})
 
 	// ---------------------------------------------------------------- R3
-	c.rule("R3", "the default TLS ServerName is tryRemovePort(trimmed URL host), set only when none is configured", 2)
-	trp := c.fn(relUpstream, "", "tryRemovePort")
+	c.rule("R3", "the default TLS ServerName is the URL host — tryRemovePort(trimmed URL host), or URL.Hostname() of the bracket-normalised URL — set only when none is configured", 2)
+	trp := c.P.Func(relUpstream, "", "tryRemovePort") // may be gone when the server name is taken from URL.Hostname()
+	// (*url.URL).Hostname() cuts a bare IPv6 literal at its last colon; it is the URL host only because NewUpstream
+	// puts a bare IPv6 host into brackets first (D26, checked as R8 bare-ipv6-bracketed)
+	hostBracketed := false
+	for _, w := range p.whoWrites().byField["net/url.URL.Host"] {
+		if w.Fn == nu && isBracketingOfHost(w) {
+			hostBracketed = true
+		}
+	}
 	eachInstrDeep(nu, func(f *ssa.Function, in ssa.Instruction) {
 		st, ok := in.(*ssa.Store)
 		if !ok {
@@ -539,6 +547,16 @@ func runC18(c *Ctx) {
 		if cl, ok := st.Val.(*ssa.Call); ok && trp != nil && staticCallee(cl) == trp {
 			r := tr.origins(cl.Call.Args[0])
 			good = len(r) == 1 && isTrimCall(r[0])
+		}
+		if cl, ok := st.Val.(*ssa.Call); ok && callName(cl) == "(*net/url.URL).Hostname" && hostBracketed {
+			// the parsed address URL itself
+			for _, o := range tr.origins(cl.Call.Args[0]) {
+				if ex, isE := o.(*ssa.Extract); isE {
+					if pc, isC := ex.Tuple.(*ssa.Call); isC && callName(pc) == "net/url.Parse" {
+						good = true
+					}
+				}
+			}
 		}
 		guarded := false
 		for _, g := range guardsOfInstr(in) {
@@ -750,7 +768,7 @@ func runC18(c *Ctx) {
 			}
 			c.check(good, "helper:joinPort", f.Pos(), "joinPort = net.JoinHostPort(host, Itoa(port))", "joinPort is not net.JoinHostPort(host, strconv.Itoa(int(port))): IPv6 hosts are joined without brackets")
 		}
-		if f := c.fn(relUpstream, "", "tryRemovePort"); f != nil {
+		if f := c.P.Func(relUpstream, "", "tryRemovePort"); f != nil && f.Blocks != nil { // the helper may be gone (server name from URL.Hostname(), R3)
 			c.see(f)
 			good, n := true, 0
 			for _, r := range returnsOf(f) {
